@@ -209,11 +209,11 @@ package storage
 //@   requires (forall j int :: 0 <= j && j < len(req.Success) ==> req.Success[j] != nil && opNonNilPayload(req.Success[j])) && (forall j int :: 0 <= j && j < len(req.Failure) ==> req.Failure[j] != nil && opNonNilPayload(req.Failure[j]))
 //@   ensures [C10.engine.txn.rev] err == nil && e.Manager.nh.nprop == old(e.Manager.nh.nprop) + 1 ==> resp != nil && resp.Header != nil && resp.Header.Revision == world.lastRev
 // (a read-only transaction's response comes from the state machine's lookup: its ownership is not established, hence the wide frame)
-//@   modifies family(G_any_nprop), family(G_any_nsync), family(G_any_nstale), world.lastRev, family(G_any_rHas), family(G_any_rPair), allfields(regattapb.TxnResponse), allfields(regattapb.ResponseHeader)
+//@   modifies family(G_any_nprop), family(G_any_nsync), family(G_any_nstale), family(G_any_lastReq), world.lastRev, family(G_any_rHas), family(G_any_rPair), allfields(regattapb.TxnResponse), allfields(regattapb.ResponseHeader)
 // Engine.Range: the consistency level asked for decides the read path; the answer's header is new
 //@ func (*Engine).Range
 //@   maypanic
 //@   results resp, err
 //@   requires e != nil && e.Manager != nil && e.Cluster != nil && e.Cluster.shardView != nil && req != nil && ctx != nil && e.Manager.store != nil && e.Manager.nh != nil
 //@   ensures [C10.engine.range.path] err == nil && req.Linearizable ==> e.Manager.nh.nsync == old(e.Manager.nh.nsync) + 1 && e.Manager.nh.nstale == old(e.Manager.nh.nstale)
-//@   modifies family(G_any_nsync), family(G_any_nstale), family(G_any_rHas), family(G_any_rPair), allfields(regattapb.RangeResponse)
+//@   modifies family(G_any_nsync), family(G_any_nstale), family(G_any_lastReq), family(G_any_rHas), family(G_any_rPair), allfields(regattapb.RangeResponse)
